@@ -93,6 +93,7 @@ type Exec struct {
 	skipAlloc  bool
 	witness    map[string]SV
 	defers     []deferred
+	privCache  map[ssa.Value]privInfo
 	strIters   []*ssa.Range
 	root       *Exec
 	parentExec *Exec
@@ -1670,11 +1671,163 @@ func privateAlloc(a *ssa.Alloc) bool {
 	return ok(a, 0)
 }
 
+// privateSlice: a slice value whose memory block was allocated by this activation (make, a callee whose contract
+// says `fresh`, or append of such a slice) and is only indexed, re-sliced, appended to, measured or returned:
+// no callee ever sees the block, so its content survives heap havocs.  users collects the instructions that can
+// write the block (stores through element addresses, appends).
+func (ex *Exec) privateSlice(v ssa.Value) (bool, []ssa.Instruction) {
+	if _, isSl := v.Type().Underlying().(*types.Slice); !isSl {
+		return false, nil
+	}
+	if c, ok := ex.privCache[v]; ok {
+		return c.ok, c.users
+	}
+	seen := map[ssa.Value]bool{}
+	var users []ssa.Instruction
+	var origin func(v ssa.Value) bool
+	var usesOK func(v ssa.Value) bool
+	isAppend := func(c *ssa.Call) bool {
+		b, ok := c.Call.Value.(*ssa.Builtin)
+		return ok && b.Name() == "append"
+	}
+	origin = func(v ssa.Value) bool {
+		if seen[v] {
+			return true
+		}
+		seen[v] = true
+		okO := false
+		switch x := v.(type) {
+		case *ssa.MakeSlice:
+			okO = true
+		case *ssa.Call:
+			if isAppend(x) {
+				okO = origin(x.Call.Args[0])
+			} else if f := staticCallee(&x.Call); f != nil {
+				if c := ex.P.contracts.get(funcKey(f)); c != nil && c.Fresh {
+					okO = true
+				}
+			}
+		case *ssa.Phi:
+			okO = true
+			for _, e := range x.Edges {
+				if !origin(e) {
+					okO = false
+				}
+			}
+		case *ssa.Slice:
+			okO = origin(x.X)
+		}
+		return okO && usesOK(v)
+	}
+	usesOK = func(v ssa.Value) bool {
+		if v.Referrers() == nil {
+			return false
+		}
+		for _, r := range *v.Referrers() {
+			switch x := r.(type) {
+			case *ssa.DebugRef, *ssa.Return:
+			case *ssa.IndexAddr:
+				if x.X != v || x.Referrers() == nil {
+					return false
+				}
+				for _, r2 := range *x.Referrers() {
+					switch y := r2.(type) {
+					case *ssa.DebugRef:
+					case *ssa.UnOp:
+					case *ssa.Store:
+						if y.Addr != ssa.Value(x) {
+							return false
+						}
+						users = append(users, y)
+					default:
+						return false
+					}
+				}
+			case *ssa.Phi:
+				if !origin(x) {
+					return false
+				}
+			case *ssa.Slice:
+				if x.X != v || !origin(x) {
+					return false
+				}
+			case *ssa.Call:
+				b, isB := x.Call.Value.(*ssa.Builtin)
+				if !isB {
+					return false
+				}
+				switch b.Name() {
+				case "len", "cap":
+				case "append":
+					if x.Call.Args[0] != v {
+						return false
+					}
+					for _, a := range x.Call.Args[1:] {
+						if a == v {
+							return false
+						}
+					}
+					users = append(users, x)
+					if !origin(x) {
+						return false
+					}
+				default:
+					return false
+				}
+			default:
+				return false
+			}
+		}
+		return true
+	}
+	ok := origin(v)
+	if ex.privCache == nil {
+		ex.privCache = map[ssa.Value]privInfo{}
+	}
+	ex.privCache[v] = privInfo{ok, users}
+	return ok, users
+}
+
+type privInfo struct {
+	ok    bool
+	users []ssa.Instruction
+}
+
 // havocAllKeep: forget everything about the heap except the content of this activation's private locals.
-func (ex *Exec) havocAllKeep(h *Heap, guard Term) *Heap {
+func (ex *Exec) havocAllKeep(h *Heap, guard Term, loop ...*Loop) *Heap {
 	q := ex.q
 	nh := q.havocAll(h, guard)
 	for e := ex; e != nil; e = e.parentExec {
+		var slices []ssa.Value
+		for v := range e.vals {
+			if _, isSl := v.Type().Underlying().(*types.Slice); isSl {
+				slices = append(slices, v)
+			}
+		}
+		sort.Slice(slices, func(i, j int) bool { return slices[i].Name() < slices[j].Name() })
+		for _, v := range slices {
+			ok, users := e.privateSlice(v)
+			if !ok {
+				continue
+			}
+			written := false
+			if e == ex && len(loop) > 0 && loop[0] != nil {
+				for _, u := range users {
+					if loop[0].body[u.Block()] {
+						written = true // the loop body itself writes the block: havoced with the loop
+					}
+				}
+			} else if e != ex && len(loop) > 0 && loop[0] != nil {
+				written = true
+			}
+			if written {
+				continue
+			}
+			st := v.Type().Underlying().(*types.Slice)
+			key := e.memKey(st.Elem())
+			b := slBase(e.vals[v])
+			q.heapSet(nh, key, store(q.heapGet(nh, key), b, sel(q.heapGet(h, key), b)))
+		}
 		for v, ref := range e.vals {
 			a, isAlloc := v.(*ssa.Alloc)
 			if !isAlloc || !privateAlloc(a) {
